@@ -29,6 +29,7 @@ def log(*a):
 def env_offline():
     e = dict(os.environ)
     e["CARGO_NET_OFFLINE"] = "true"
+    e["VERIF_HOME"] = VERIF
     e.pop("RUSTFLAGS", None)
     return e
 
